@@ -4,6 +4,8 @@ import HtaVerif.Spec.C04
 import HtaVerif.Spec.C07
 import HtaVerif.Spec.C05
 import HtaVerif.Spec.C15
+import HtaVerif.Spec.C14
+import HtaVerif.Spec.C06
 /-!
 `htadrv` — line protocol driver. One JSON request per input line, one JSON answer per
 output line. Imports only `Model/*` and `Spec/*` (core Lean), never a proof file.
@@ -137,6 +139,33 @@ def handle (j : Json) : Except String Json := do
     let wm ← getBool (← field j "with_memory")
     let out := (C15.run wm rs).map fun o => Json.arr #[jInt o.corr, jInt o.cpuDur, jInt o.gpuDur, jInt o.delay]
     return Json.mkObj [("rows", Json.arr out.toArray)]
+  | "c14.queue" =>
+    let rs ← rows (← field j "rows")
+    let out := (C14.run rs).map fun (s, l) =>
+      Json.arr #[jInt s, Json.arr (l.map fun (i, ts, pid, tid, v) =>
+        Json.arr #[jInt i, jInt ts, jInt pid, jInt tid, jInt v]).toArray]
+    return Json.mkObj [("streams", Json.arr out.toArray)]
+  | "c14.bw" =>
+    let rs ← rows (← field j "rows")
+    let bws ← (← getArr (← field j "bw")).toList.mapM fun p => do
+      let q ← getArr p
+      return (← getInt q[0]!, ← getInt q[1]!)
+    let bwOf := fun (i : Int) => ((bws.find? fun p => p.1 == i).map (·.2)).getD 0
+    let out := (C14.memTypes kernelType rs).map fun ty =>
+      let cs := C14.memCopies kernelType rs bwOf ty
+      Json.arr #[Json.str ty, Json.arr ((C14.bwSeries cs).map fun (t, v) => Json.arr #[jInt t, jInt v]).toArray,
+        Json.arr (cs.map fun c => Json.arr #[jInt c.ts, jInt c.fin, jInt c.bw]).toArray]
+    return Json.mkObj [("types", Json.arr out.toArray)]
+  | "c06" =>
+    let rs ← rows (← field j "rows")
+    let delay ← getInt (← field j "delay")
+    let streams ← intList (← field j "streams")
+    let out := streams.map fun s =>
+      let o := C06.run delay rs s
+      let n := (C06.kernelsOf rs s).length
+      Json.arr #[jInt s, jInt o.hostWait, jInt o.kernelWait, jInt o.other, Json.bool o.hostPresent,
+        Json.bool o.kernelPresent, jInt n]
+    return Json.mkObj [("streams", Json.arr out.toArray)]
   | _ => throw s!"unknown op {op}"
 
 partial def loop (hin hout : IO.FS.Stream) : IO Unit := do
